@@ -219,6 +219,15 @@ def install(intr_cls):
     """Adds the symbolic loop rule to an Intrinsics class."""
 
     def symbolic_for_ext(self, eng, s, st, it):
+        if isinstance(it, ObjV):
+            # iterating an object: its __iter__ first; the loop rule is applied once per normal outcome
+            outs = []
+            for (x, r) in eng.call_method(st, it, "__iter__", [], {}):
+                if isinstance(r, Raise):
+                    outs.append((x, ("raise", r.exc)))
+                else:
+                    outs.extend(symbolic_for_ext(self, eng, s, x, r))
+            return outs
         fi = st.frames[-1]
         if isinstance(it, Z) and it.hint in ("dict", "list"):
             # iterating a container cell: the implicit iter() is a read of the cell
